@@ -320,7 +320,7 @@ def gen_host(rng):
         return ".".join(str(rng.randint(0, 255)) for _ in range(4)), "ipv4"
     if r < 0.93:
         return "[" + gen_ipv6(rng) + "]", "ipv6"
-    zone = "".join(rng.choice("abcdefghijklmnopqrstuvwxyz0123456789") for _ in range(rng.randint(1, 5)))
+    zone = "".join(rng.choice("abcdefghijklmnopqrstuvwxyzABCDEFGH0123456789") for _ in range(rng.randint(1, 5)))
     return "[fe80::" + "".join(rng.choice(HEX) for _ in range(rng.randint(1, 4))) + "%25" + zone + "]", "ipv6-zone"
 
 
